@@ -24,6 +24,12 @@ pub axiom fn axiom_parse_u64_canonical(t: Seq<char>)
     requires parse_spec::<u64>(t) is Some, t.len() > 0, forall|i: int| 0 <= i < t.len() ==> is_ascii_digit_c(#[trigger] t[i]), t.len() == 1 || t[0] != '0'
     ensures dec(parse_spec::<u64>(t)->0 as nat) == t;
 
+// TRUSTED[parse-u32-needs-digits]: a text that parses as u32 is non-empty and consists of ASCII digits after an optional leading `+`
+// (std: "an optional + sign followed by digits").
+pub axiom fn axiom_parse_u32_needs_digits(t: Seq<char>)
+    requires parse_spec::<u32>(t) is Some
+    ensures t.len() > 0, forall|i: int| 0 <= i < t.len() ==> is_ascii_digit_c(#[trigger] t[i]) || (i == 0 && t[0] == '+');
+
 // TRUSTED[parse-u32-of-decimal-text]: `t.parse::<u32>()` of a decimal text gives the number when it fits in 32 bits and fails otherwise
 // (std: FromStr for u32 reports overflow as an error).
 pub broadcast axiom fn axiom_parse_u32_dec(n: u64)
